@@ -5,6 +5,7 @@ cd /verif
 props="$*"
 one() {
   d="$1"; id=$(basename "$d" | cut -d- -f1)
+  if [ -n "$GSA_DEADLINE" ] && [ "$(date +%s)" -ge "$GSA_DEADLINE" ]; then echo "NOTRUN   $(basename $d) (self-test time budget used up)"; return; fi
   if ! ./bin/gsa list | grep -qx "$id"; then echo "SKIP     $(basename $d) (no check for $id)"; return; fi
   out=$(tools/try_patch.sh "/verif/$d/patch.diff" "$id" 2>&1); rc=$?
   if [ $rc -eq 1 ]; then
@@ -14,7 +15,7 @@ one() {
 }
 export -f one
 sel() {
-  ls -d seeded/* | while read d; do
+  ls -d seeded/* | awk '{print length($0), $0}' | sort -k1,1nr -k2,2r | cut -d' ' -f2 | while read d; do
     id=$(basename "$d" | cut -d- -f1)
     if [ -n "$props" ]; then case " $props " in *" $id "*) ;; *) continue;; esac; fi
     echo "$d"
